@@ -8,29 +8,70 @@ INS = {"replace": "IReplace", "merge": "IMerge", "error": "IError"}
 REP = {"silence": "RSilence", "warning": "RWarning", "error": "RError"}
 
 
-def entry_of(kind, e, sc):
+def _style(op, args):
+    """A reproducible small number per call: decides HOW a call is spelled (documented defaults left out, an
+    integral time handed over as int, the entry as tuple / list / named tuple) -- never WHAT is called."""
+    import zlib
+    return zlib.crc32(repr((op, sorted((k, repr(v)) for k, v in args.items()))).encode("utf-8"))
+
+
+def _num(x, st, bit):
+    if (st >> bit) & 1 and isinstance(x, float) and x.is_integer() and abs(x) < 2.0 ** 52:
+        return int(x)
+    return x
+
+
+def entry_of(kind, e, sc, st=0):
     from praatio.utilities.constants import Interval, Point
     if kind == "I":
-        return Interval(sc.f(e[0]), sc.f(e[1]), e[2])
-    return Point(sc.f(e[0]), e[1])
+        vals = (_num(sc.f(e[0]), st, 3), _num(sc.f(e[1]), st, 4), e[2])
+        ent = Interval(*vals)
+    else:
+        vals = (_num(sc.f(e[0]), st, 3), e[1])
+        ent = Point(*vals)
+    form = (st >> 5) % 4
+    if form == 1:
+        return tuple(vals)
+    if form == 2:
+        return list(vals)
+    return ent
 
 
 def apply_op(tier, op, args, sc, kind):
     """Apply a (possibly mutating) operation; returns the resulting tier object."""
     name = op
+    st = _style(op, args)
+    dflt = st % 3 == 0          # leave out trailing arguments that equal the documented default
     if name == "crop":
-        return tier.crop(sc.f(args["a"]), sc.f(args["b"]), args["mode"], args["rebase"])
+        a, b = _num(sc.f(args["a"]), st, 1), _num(sc.f(args["b"]), st, 2)
+        if kind == "P" and dflt and args["rebase"] is True:
+            return tier.crop(a, b) if args["mode"] == "lax" else tier.crop(a, b, args["mode"])
+        return tier.crop(a, b, args["mode"], args["rebase"])
     if name == "erase":
-        return tier.eraseRegion(sc.f(args["a"]), sc.f(args["b"]), args["mode"], args["shrink"])
+        a, b = _num(sc.f(args["a"]), st, 1), _num(sc.f(args["b"]), st, 2)
+        if dflt and args["shrink"] is True:
+            return tier.eraseRegion(a, b) if args["mode"] == "error" else tier.eraseRegion(a, b, args["mode"])
+        return tier.eraseRegion(a, b, args["mode"], args["shrink"])
     if name == "space":
-        return tier.insertSpace(sc.f(args["s"]), sc.f(args["d"]), args["mode"])
+        return tier.insertSpace(_num(sc.f(args["s"]), st, 1), _num(sc.f(args["d"]), st, 2), args["mode"])
     if name == "edit":
-        return tier.editTimestamps(sc.f(args["o"]), args["mode"])
+        o = _num(sc.f(args["o"]), st, 1)
+        if dflt and args["mode"] == "warning":
+            return tier.editTimestamps(o)
+        return tier.editTimestamps(o, args["mode"])
     if name == "insert":
-        tier.insertEntry(entry_of(kind, args["e"], sc), args["mode"], args.get("report", "silence"))
+        ent = entry_of(kind, args["e"], sc, st)
+        rep = args.get("report", "silence")
+        if dflt and rep == "warning":
+            if args["mode"] == "error":
+                tier.insertEntry(ent)
+            else:
+                tier.insertEntry(ent, args["mode"])
+        else:
+            tier.insertEntry(ent, args["mode"], rep)
         return tier
     if name == "delete":
-        tier.deleteEntry(entry_of(kind, args["e"], sc))
+        tier.deleteEntry(entry_of(kind, args["e"], sc, st & ~0x60))
         return tier
     if name in ("union", "difference", "intersection", "mergeLabels", "append"):
         other = core.mk_tier(args["other"], sc)
